@@ -5,6 +5,7 @@
 #include <etl/_config/all.hpp>
 
 #include <etl/_concepts/integral.hpp>
+#include <etl/_3rd_party/gcem/gcem.hpp>
 #include <etl/_type_traits/is_constant_evaluated.hpp>
 #include <etl/_type_traits/is_same.hpp>
 
@@ -14,11 +15,14 @@ namespace detail {
 template <typename T>
 [[nodiscard]] constexpr auto rint_fallback(T arg) noexcept -> T
 {
-    if constexpr (sizeof(T) <= sizeof(long)) {
-        return static_cast<T>(static_cast<long>(arg));
-    } else {
-        return static_cast<T>(static_cast<long long>(arg));
+    // round to nearest, ties to even (the default rounding mode)
+    auto const truncated = detail::gcem::trunc(arg);
+    auto const frac      = detail::gcem::abs(arg - truncated);
+    auto result          = truncated;
+    if (frac > T(0.5) or (frac == T(0.5) and detail::gcem::fmod(truncated, T(2)) != T(0))) {
+        result = truncated + (arg < T(0) ? T(-1) : T(1));
     }
+    return result == T(0) ? detail::gcem::copysign(T(0), arg) : result;
 }
 
 template <typename T>
